@@ -17,6 +17,8 @@ pub mod c14;
 pub mod c15;
 pub mod c16;
 pub mod c18;
+#[cfg(feature = "full")]
+pub mod c19;
 
 use crate::ctx::Ctx;
 use crate::report::Report;
@@ -41,6 +43,10 @@ pub fn dispatch(ctx: &Ctx, rep: &mut Report) -> bool {
         "C15" => c15::run(ctx, rep),
         "C16" => c16::run(ctx, rep),
         "C18" => c18::run(ctx, rep),
+        #[cfg(feature = "full")]
+        "C19" => c19::run(ctx, rep),
+        #[cfg(not(feature = "full"))]
+        "C19" => rep.inconclusive("C19 needs the `full` harness variant (miniz_oxide features serde + block-boundary)".into()),
         _ => return false,
     }
     true
